@@ -91,7 +91,7 @@ def rule_functions(ck):
             ps = I.explore(lambda data=data: I.call(I.module_get("bk_encoding", "decode"), [data], {}))
             want = ("".join(DEC[b][0] for b in data), len(data))
             ck.instance(("decode-valuation", arrangement), None, fn="bk_encoding::decode")
-            if len(ps) != 1 or ps[0].kind != "return" or tuple(ps[0].value) != want:
+            if len(ps) != 1 or ps[0].kind != "return" or not isinstance(ps[0].value, (tuple, list)) or tuple(ps[0].value) != want:
                 ck.violation("bk_encoding::decode", f"decode() of all 256 byte values ({arrangement}) is not ''.join(DECODING_TABLE[b][0] for b in data), len(data): {shown}", construct="decode body")
                 break
     # encode on a fully encodable symbolic string
